@@ -19,6 +19,20 @@ The harness builds every k list from INTEGER mesh coordinates i/N, so the expect
     that lcm mesh.  A silent other answer is the violation.
   D selection from a superset: points of a finer mesh N*f plus off-grid points, grid=N: exactly the coarse
     points, once each, and only indices of points that really are on the coarse mesh.
+
+Widening review (second round) - classes drawn inside `case`:
+  * the single-point mesh (1,1,1) (one-line k list), the whole list repeated 2-3 times;
+  * grid_from_kpoints with (nk, ndim) arrays, ndim = 1, 2 (documented shape), trivial directions dropped;
+  * forms of the arguments: C / Fortran ordered arrays, non-contiguous column views of a wider array, for
+    get_mp_grid (which converts with np.array) also lists of lists / tuples; `grid` as tuple, list, int64 / int32
+    array, tuple of numpy integers, and the very object returned by the detection; the arguments must come back
+    bitwise unchanged (`input_modified`);
+  * more representations: 12-digit rounded, i*(1/N), (k+shift)%1 without rounding;
+  * removed: whole planes of the mesh (incl. all planes that are not multiples of a step, which leaves a complete
+    coarser mesh that detection must return); superset with coarse points removed (must raise ValueError although
+    finer-mesh and off-grid points are around and the list is longer than the mesh);
+  * histories: one k array re-used for a second request with another (divisor) mesh and then again with the first
+    mesh; selection applied to the result of a selection (k[sel] is the complete mesh, selection = everything).
 """
 import os
 import sys
@@ -41,6 +55,8 @@ def setup(ctx):
 
 def gen_mesh(rng, maxpts):
     """mesh with 1-3 non-trivial directions, one of them possibly up to MAXDEN, at most maxpts points"""
+    if rng.random() < 0.02:
+        return (1, 1, 1)             # the one-point mesh
     ndir = int(rng.choice([1, 2, 3], p=[0.25, 0.35, 0.4]))
     dirs = rng.permutation(3)[:ndir]
     N = [1, 1, 1]
@@ -74,6 +90,15 @@ def represent(rng, kint, N, how):
         k = np.round((k + sh) % 1, 8)
         k[k >= 1.0] = 0.0
         return k
+    if how == "round12":
+        return np.round(k, 12)
+    if how == "recip":               # i * (1/N) instead of i / N (differs in the last bit)
+        return kint * (1.0 / Na)[None, :]
+    if how == "shift_unrounded":     # (k + lattice vector) % 1 at full precision
+        sh = rng.integers(-3, 4, size=kint.shape)
+        k = (k + sh) % 1
+        k[k >= 1.0] = 0.0
+        return k
     if how == "shift_raw":           # only for get_mp_grid, which reduces mod 1 itself
         sh = rng.integers(-3, 4, size=kint.shape)
         return np.round(k + sh, 8)
@@ -86,14 +111,103 @@ def call(fn, *a, **kw):
         warnings.simplefilter("ignore")
         try:
             return "ok", fn(*a, **kw)
-        except (AssertionError, ValueError, RuntimeError, ZeroDivisionError, IndexError, TypeError) as e:
+        except (AssertionError, ValueError, RuntimeError, ZeroDivisionError, IndexError, TypeError, AttributeError,
+                KeyError, OverflowError) as e:
             return "raised", e
 
 
-def as_tuple(x):
+K_FORMS_ARRAY = ("c", "fortran", "view")
+K_FORMS_ANY = ("c", "fortran", "view", "list", "tuples")
+PAD = 0.37
+
+
+def k_form(rng, k, forms):
+    """the k list `k` (nk, ndim) in one of the forms a caller may hold it in; returns (form, object, base)"""
+    form = forms[int(rng.integers(len(forms)))]
+    base = None
+    if form == "c":
+        obj = np.ascontiguousarray(k.copy())
+    elif form == "fortran":
+        obj = np.asfortranarray(k.copy())
+    elif form == "view":             # columns of a wider table (e.g. k-points followed by weights)
+        base = np.full((k.shape[0], k.shape[1] + 2), PAD)
+        base[:, 1:1 + k.shape[1]] = k
+        obj = base[:, 1:1 + k.shape[1]]
+    elif form == "list":
+        obj = k.tolist()
+    elif form == "tuples":
+        obj = [tuple(r) for r in k.tolist()]
+    else:
+        raise ValueError(form)
+    return form, obj, base
+
+
+def k_unchanged(obj, base, k):
+    try:
+        a = np.array(obj, dtype=float)
+    except Exception:
+        return False
+    if a.shape != k.shape or np.ascontiguousarray(a).tobytes() != np.ascontiguousarray(k).tobytes():
+        return False
+    if base is not None and not (np.all(base[:, 0] == PAD) and np.all(base[:, -1] == PAD)):
+        return False
+    return True
+
+
+G_FORMS = ("tuple", "list", "array", "array32", "npints")
+
+
+def g_form(rng, G):
+    form = G_FORMS[int(rng.integers(len(G_FORMS)))]
+    G = tuple(int(x) for x in G)
+    if form == "tuple":
+        return form, G
+    if form == "list":
+        return form, list(G)
+    if form == "array":
+        return form, np.array(G, dtype=np.int64)
+    if form == "array32":
+        return form, np.array(G, dtype=np.int32)
+    return form, tuple(np.int64(x) for x in G)
+
+
+def g_unchanged(obj, G):
+    try:
+        return len(obj) == len(G) and all(int(a) == int(b) and float(a) == float(b) for a, b in zip(obj, G))
+    except Exception:
+        return False
+
+
+def run(ctx, rng, name, fn, k, wit, forms, grid=None, gobj=None, kobj=None):
+    """call fn on the k list k (in a drawn form, or on the given object kobj = (form, obj, base)) [and the mesh `grid`,
+    in a drawn form or as the given object gobj]; the arguments must come back unchanged.  Returns (res, kobj)"""
+    if kobj is None:
+        kobj = k_form(rng, k, forms)
+    form, obj, base = kobj
+    ctx.count("kpoints_form_" + form)
+    if grid is None:
+        res = call(fn, obj)
+    else:
+        if gobj is None:
+            gf, gobj = g_form(rng, grid)
+            ctx.count("grid_form_" + gf)
+        res = call(fn, obj, grid=gobj)
+    ctx.ev()
+    if not k_unchanged(obj, base, k):
+        ctx.violation(f"{name}:input_modified", f"the k-point list (form {form}) was changed by the call", wit)
+    if grid is not None and not g_unchanged(gobj, grid):
+        ctx.violation(f"{name}:input_modified", f"the grid argument {grid} came back as {gobj}", wit)
+    return res, kobj
+
+
+def divisors(n):
+    return [d for d in range(1, n + 1) if n % d == 0]
+
+
+def as_tuple(x, n=3):
     try:
         t = tuple(int(v) for v in x)
-        if len(t) == 3 and all(float(v) == int(v) for v in x):
+        if len(t) == n and all(float(v) == int(v) for v in x):
             return t
     except Exception:
         pass
@@ -107,7 +221,7 @@ def check_detect(ctx, name, res, expected, wit):
     if st == "raised":
         ctx.violation(f"{name}:raised_on_complete_mesh", f"{type(val).__name__}: {str(val)[:300]}", wit)
         return False
-    if as_tuple(val) != tuple(expected):
+    if as_tuple(val, len(expected)) != tuple(expected):
         ctx.violation(f"{name}:wrong_mesh", f"returned {val}, mesh is {tuple(expected)}", wit)
         return False
     return True
@@ -145,6 +259,87 @@ def check_selection(ctx, name, res, kint_of_index, on_grid_coarse, Ncoarse, wit)
     return True
 
 
+HOWS = ("exact", "round8", "shift_reduced", "round12", "recip", "shift_unrounded")
+
+
+def ordering(ctx, rng, kint):
+    """mostly a random order; sometimes the orders files are written in (sorted with the last / first index fastest,
+    reversed)"""
+    r = rng.random()
+    if r < 0.8 or len(kint) < 2:
+        return rng.permutation(len(kint))
+    ctx.count("sorted_order_cases")
+    if r < 0.87:
+        o = np.lexsort((kint[:, 2], kint[:, 1], kint[:, 0]))      # Wannier90 order, copies adjacent
+    elif r < 0.94:
+        o = np.lexsort((kint[:, 0], kint[:, 1], kint[:, 2]))      # first index fastest
+    else:
+        o = np.lexsort((kint[:, 2], kint[:, 1], kint[:, 0]))[::-1]
+    return o
+
+
+def second_request(ctx, rng, fn, kk, kobj, kint, N, Ng, cols, koi, meshset, res1, wit):
+    """the SAME k array object asked for another (divisor) mesh and then for the first mesh again"""
+    Na = np.array(N)
+    N2 = [int(rng.choice(divisors(n))) for n in N]
+    if tuple(N2) == tuple(N):
+        d = int(rng.choice([d for d in range(3) if N[d] > 1]))
+        N2[d] = int(rng.choice([x for x in divisors(N[d]) if x < N[d]]))
+    N2 = tuple(N2)
+    step = Na // np.array(N2)
+    koi2 = [tuple((v // step).tolist()) if np.all(v % step == 0) else None for v in kint]
+    mesh2 = {(a, b, c) for a in range(N2[0]) for b in range(N2[1]) for c in range(N2[2])}
+    first = [int(x) for x in res1[1]]
+    w = dict(wit, history="same array: first mesh, second mesh, first mesh again", second_mesh=N2)
+    res2, _ = run(ctx, rng, "grid_from_kpoints(select,second_mesh)", fn, kk, w, K_FORMS_ARRAY,
+                  grid=tuple(N2[c] for c in cols), kobj=kobj)
+    check_selection(ctx, "grid_from_kpoints(select,second_mesh)", res2, koi2, mesh2, N2, w)
+    res3, _ = run(ctx, rng, "grid_from_kpoints(select,first_mesh_again)", fn, kk, w, K_FORMS_ARRAY, grid=Ng, kobj=kobj)
+    check_selection(ctx, "grid_from_kpoints(select,first_mesh_again)", res3, koi, meshset, N, w)
+    # a mesh the list is not complete for (one direction N+1 or 2N): must be rejected
+    N3 = list(N)
+    d = int(rng.integers(3))
+    N3[d] = 2 * N[d] if (rng.random() < 0.5 and 2 * N[d] <= MAXDEN) else N[d] + 1
+    N3 = tuple(N3)
+    if d in cols and N3[d] <= MAXDEN:
+        w3 = dict(w, other_mesh=N3)
+        res4, _ = run(ctx, rng, "grid_from_kpoints(select,other_mesh)", fn, kk, w3, K_FORMS_ARRAY,
+                      grid=tuple(N3[c] for c in cols), kobj=kobj)
+        st, val = res4
+        if st == "ok":
+            ctx.violation("grid_from_kpoints(select,other_mesh):incomplete_mesh_accepted",
+                          f"the points of mesh {N} were accepted as mesh {N3}, selection of {len(val)}", w3)
+        elif not isinstance(val, ValueError):
+            ctx.violation("grid_from_kpoints(select,other_mesh):undocumented_exception_on_incomplete_mesh",
+                          f"{type(val).__name__}: {str(val)[:200]}", w3)
+        else:
+            ctx.count("other_mesh_rejected_ValueError")
+    ctx.ev()
+    try:
+        still = [int(x) for x in res1[1]] == first
+    except Exception:
+        still = False
+    if not still:
+        ctx.violation("grid_from_kpoints(select):earlier_result_changed", "the selection returned by the first call "
+                                                                         "was changed by later calls", w)
+    ctx.count("second_request_cases")
+
+
+def chain(ctx, rng, fns, k, kk, sel, koi, meshset, N, Ng, wit):
+    """k[selection] is the complete mesh without copies: detection gives the mesh, selection takes everything once"""
+    get_mp_grid, grid_from_kpoints = fns
+    sel = [int(x) for x in sel]
+    k2, kk2, koi2 = k[sel], kk[sel], [koi[x] for x in sel]
+    w = dict(wit, history="functions applied to k[selection]", nlist=len(sel))
+    res, _ = run(ctx, rng, "get_mp_grid(of selection)", get_mp_grid, k2, w, K_FORMS_ANY)
+    check_detect(ctx, "get_mp_grid(of selection)", res, N, w)
+    res, _ = run(ctx, rng, "grid_from_kpoints(detect of selection)", grid_from_kpoints, kk2, w, K_FORMS_ARRAY)
+    check_detect(ctx, "grid_from_kpoints(detect of selection)", res, Ng, w)
+    res, _ = run(ctx, rng, "grid_from_kpoints(select of selection)", grid_from_kpoints, kk2, w, K_FORMS_ARRAY, grid=Ng)
+    check_selection(ctx, "grid_from_kpoints(select of selection)", res, koi2, meshset, N, w)
+    ctx.count("chained_cases")
+
+
 def case(ctx, rng, idx, state):
     from wannierberri.w90files.utility import get_mp_grid, grid_from_kpoints
 
@@ -156,51 +351,93 @@ def case(ctx, rng, idx, state):
     nmesh = len(allint)
     meshset = {tuple(x) for x in allint.tolist()}
     variant = ["complete", "duplicates", "removed", "superset"][int(rng.choice(4, p=[0.3, 0.25, 0.25, 0.2]))]
-    how = ["exact", "round8", "shift_reduced"][int(rng.integers(3))]
-    wit = dict(mesh=N, variant=variant, representation=how, npoints=nmesh)
+    if nmesh == 1 and variant == "removed":
+        variant = "complete"         # the one-point mesh cannot lose a point
+    how = HOWS[int(rng.integers(len(HOWS)))]
+    # grid_from_kpoints is documented for (nk, ndim) arrays: trivial directions may be absent from its input
+    cols = [0, 1, 2]
+    trivial = [d for d in range(3) if N[d] == 1]
+    if trivial and rng.random() < 0.35:
+        drop = [d for d in trivial if rng.random() < 0.7]
+        if len(drop) == 3:
+            drop = [int(d) for d in rng.permutation(3)[:2]]
+        cols = [d for d in range(3) if d not in drop]
+    nd = len(cols)
+    Ng = tuple(N[c] for c in cols)
+    wit = dict(mesh=N, variant=variant, representation=how, npoints=nmesh, columns_for_grid_from_kpoints=cols)
+    fns = (get_mp_grid, grid_from_kpoints)
 
     if variant in ("complete", "duplicates"):
         kint = allint.copy()
         if variant == "duplicates":
-            ndup = int(rng.integers(1, max(2, min(nmesh, 12)) + 1))
-            kint = np.vstack([kint, allint[rng.integers(nmesh, size=ndup)]])
-        kint = kint[rng.permutation(len(kint))]
+            if rng.random() < 0.25 and 3 * nmesh <= maxpts:      # the whole list 2 or 3 times
+                kint = np.vstack([allint] * int(rng.integers(2, 4)))
+                ctx.count("list_repeated_cases")
+            else:
+                ndup = int(rng.integers(1, max(2, min(nmesh, 12)) + 1))
+                kint = np.vstack([kint, allint[rng.integers(nmesh, size=ndup)]])
+        kint = kint[ordering(ctx, rng, kint)]
         k = represent(rng, kint, N, how)
         if variant == "duplicates":
             # the copies of a point appear in different representations (exact vs 8-digit vs full precision)
             alt = represent(rng, kint, N, "exact" if how != "exact" else "round8")
             use_alt = rng.random(len(kint)) < 0.5
             k = np.where(use_alt[:, None], alt, k)
+        kk = k[:, cols]
         wit["nlist"] = len(k)
-        ok = check_detect(ctx, "get_mp_grid", call(get_mp_grid, k.copy()), N, wit)
-        ok &= check_detect(ctx, "get_mp_grid", call(get_mp_grid, represent(rng, kint, N, "shift_raw")), N,
-                           dict(wit, representation="shift_raw"))
-        ok &= check_detect(ctx, "grid_from_kpoints(detect)", call(grid_from_kpoints, k.copy()), N, wit)
+        res, _ = run(ctx, rng, "get_mp_grid", get_mp_grid, k, wit, K_FORMS_ANY)
+        check_detect(ctx, "get_mp_grid", res, N, wit)
+        wraw = dict(wit, representation="shift_raw")
+        res, _ = run(ctx, rng, "get_mp_grid", get_mp_grid, represent(rng, kint, N, "shift_raw"), wraw, K_FORMS_ANY)
+        check_detect(ctx, "get_mp_grid", res, N, wraw)
+        res, _ = run(ctx, rng, "grid_from_kpoints(detect)", grid_from_kpoints, kk, wit, K_FORMS_ARRAY)
+        okd = check_detect(ctx, "grid_from_kpoints(detect)", res, Ng, wit)
+        gobj = None
+        if okd and rng.random() < 0.3:       # the object returned by the detection is the grid argument of the selection
+            gobj = res[1]
+            ctx.count("grid_argument_from_detection")
         koi = [tuple(x) for x in kint.tolist()]
-        ok &= check_selection(ctx, "grid_from_kpoints(select)", call(grid_from_kpoints, k.copy(), grid=N), koi,
-                              meshset, N, wit)
+        res1, kobj = run(ctx, rng, "grid_from_kpoints(select)", grid_from_kpoints, kk, wit, K_FORMS_ARRAY, grid=Ng, gobj=gobj)
+        oks = check_selection(ctx, "grid_from_kpoints(select)", res1, koi, meshset, N, wit)
+        if oks and nmesh > 1 and rng.random() < 0.5:
+            second_request(ctx, rng, grid_from_kpoints, kk, kobj, kint, N, Ng, cols, koi, meshset, res1, wit)
+        if oks and rng.random() < 0.4:
+            chain(ctx, rng, fns, k, kk, res1[1], koi, meshset, N, Ng, wit)
         ctx.count("complete_mesh_cases" if variant == "complete" else "duplicate_cases")
 
     elif variant == "removed":
-        if nmesh < 2:
-            raise harness.Skip("single-point mesh cannot lose a point")
-        nrem = int(rng.integers(1, min(nmesh - 1, 6) + 1)) if rng.random() < 0.7 else 1
-        rem = set(int(i) for i in rng.choice(nmesh, nrem, replace=False))
+        if rng.random() < 0.35:      # whole planes of the mesh
+            d = int(rng.choice([d for d in range(3) if N[d] > 1]))
+            n = N[d]
+            if rng.random() < 0.5:   # all planes that are not multiples of a step: a complete coarser mesh remains
+                step = int(rng.choice([x for x in divisors(n) if x > 1]))
+                remove_js = [j for j in range(n) if j % step]
+            else:
+                remove_js = rng.choice(n, int(rng.integers(1, min(3, n - 1) + 1)), replace=False).tolist()
+            rem = set(np.nonzero(np.isin(allint[:, d], remove_js))[0].tolist())
+            wit.update(removed_planes=dict(direction=d, indices=[int(j) for j in remove_js]))
+            ctx.count("removed_plane_cases")
+        else:
+            nrem = int(rng.integers(1, min(nmesh - 1, 6) + 1)) if rng.random() < 0.7 else 1
+            rem = set(int(i) for i in rng.choice(nmesh, nrem, replace=False))
+        nrem = len(rem)
         keep = np.array([i for i in range(nmesh) if i not in rem], dtype=int)
         kint = allint[keep]
         if rng.random() < 0.5:   # duplicates among the remaining points must not hide the hole
-            kint = np.vstack([kint, kint[rng.integers(len(kint), size=int(rng.integers(1, nrem + 2)))]])
-        kint = kint[rng.permutation(len(kint))]
+            kint = np.vstack([kint, kint[rng.integers(len(kint), size=int(rng.integers(1, min(nrem, 6) + 2)))]])
+        kint = kint[ordering(ctx, rng, kint)]
         k = represent(rng, kint, N, how)
-        wit.update(removed=allint[sorted(rem)], nlist=len(k))
+        kk = k[:, cols]
+        wit.update(removed=allint[sorted(rem)[:12]], nremoved=nrem, nlist=len(k))
         # exact smallest mesh that contains the remaining points
         D = tuple(lcm(*[Fraction(int(v), N[d]).denominator for v in kint[:, d]]) for d in range(3))
+        Dg = tuple(D[c] for c in cols)
         remaining = {tuple(x) for x in kint.tolist()}
         complete_on_D = len(remaining) == int(np.prod(D))
         wit.update(lcm_mesh=D, remaining_is_complete_lcm_mesh=complete_on_D)
         # (1) selection on the stated mesh must reject
-        ctx.ev()
-        st, val = call(grid_from_kpoints, k.copy(), grid=N)
+        res, _ = run(ctx, rng, "grid_from_kpoints(select)", grid_from_kpoints, kk, wit, K_FORMS_ARRAY, grid=Ng)
+        st, val = res
         if st == "ok":
             ctx.violation("grid_from_kpoints(select):incomplete_mesh_accepted",
                           f"{nrem} of {nmesh} mesh points missing, returned a selection of {len(val)}", wit)
@@ -210,12 +447,14 @@ def case(ctx, rng, idx, state):
         else:
             ctx.count("incomplete_rejected_ValueError")
         # (2) detection
-        ctx.ev()
-        st, val = call(grid_from_kpoints, k.copy())
+        res, _ = run(ctx, rng, "grid_from_kpoints(detect)", grid_from_kpoints, kk, wit, K_FORMS_ARRAY)
+        st, val = res
         if complete_on_D:
-            if st == "raised" or as_tuple(val) != D:
+            if st == "raised" or as_tuple(val, nd) != Dg:
                 ctx.violation("grid_from_kpoints(detect):wrong_mesh", f"remaining points are the complete mesh {D}, "
                                                                      f"got {st} {str(val)[:200]}", wit)
+            else:
+                ctx.count("removed_leaves_complete_coarser_mesh_detected")
         elif st == "ok":
             ctx.violation("grid_from_kpoints(detect):incomplete_mesh_accepted",
                           f"returned {val} for {len(remaining)} distinct points (lcm mesh {D})", wit)
@@ -223,8 +462,8 @@ def case(ctx, rng, idx, state):
             ctx.violation("grid_from_kpoints(detect):undocumented_exception_on_incomplete_mesh",
                           f"{type(val).__name__}: {str(val)[:200]}", wit)
         # (3) get_mp_grid: AssertionError or the lcm mesh
-        ctx.ev()
-        st, val = call(get_mp_grid, k.copy())
+        res, _ = run(ctx, rng, "get_mp_grid", get_mp_grid, k, wit, K_FORMS_ANY)
+        st, val = res
         if st == "ok":
             if as_tuple(val) != D:
                 ctx.violation("get_mp_grid:wrong_mesh", f"returned {val}; smallest mesh containing the points is {D}", wit)
@@ -239,7 +478,7 @@ def case(ctx, rng, idx, state):
         ctx.count("removed_cases")
 
     else:  # superset: finer mesh + off-grid points, select the coarse mesh
-        f = [int(rng.integers(1, 4)) if N[d] > 1 or rng.random() < 0.3 else 1 for d in range(3)]
+        f = [int(rng.integers(1, 4)) if (N[d] > 1 or rng.random() < 0.3) and d in cols else 1 for d in range(3)]
         while (np.prod(Na * f) > 4 * maxpts or max(Na * f) > MAXDEN) and f != [1, 1, 1]:
             cand = [d for d in range(3) if f[d] > 1]
             f[max(cand, key=lambda d: N[d] * f[d])] = 1
@@ -249,21 +488,43 @@ def case(ctx, rng, idx, state):
         ndup = int(rng.integers(0, 6))
         if ndup:
             fine = np.vstack([fine, fine[rng.integers(len(fine), size=ndup)]])
+        holes = set()
+        if rng.random() < 0.3:       # coarse points (all copies) missing from the superset: must be rejected
+            holes = {tuple(x) for x in allint[rng.choice(nmesh, int(rng.integers(1, min(3, nmesh) + 1)), replace=False)].tolist()}
+            keep = [not (np.all(v % fa == 0) and tuple((v // fa).tolist()) in holes) for v in fine]
+            fine = fine[np.array(keep, dtype=bool)]
         kfine = represent(rng, fine, M, how)
-        noff = int(rng.integers(0, 8))
+        noff = int(rng.integers(1 if holes else 0, 8))
         koff = []
+        cc = np.array(cols)
         while len(koff) < noff:
             p = rng.uniform(0, 1, 3)
-            x = p * Na
+            x = (p * Na)[cc]
             if np.linalg.norm(x - np.round(x)) > 1e-2:     # clearly off the coarse mesh (library threshold 1e-5)
                 koff.append(np.round(p, 8))
         k = np.vstack([kfine] + ([np.array(koff)] if koff else []))
         koi = [tuple((v // fa).tolist()) if np.all(v % fa == 0) else None for v in fine] + [None] * len(koff)
         perm = rng.permutation(len(k))
         k = k[perm]
+        kk = k[:, cols]
         koi = [koi[i] for i in perm]
-        wit.update(fine_mesh=M, nlist=len(k), off_grid_points=noff, duplicates=ndup)
-        check_selection(ctx, "grid_from_kpoints(select)", call(grid_from_kpoints, k.copy(), grid=N), koi, meshset, N, wit)
+        wit.update(fine_mesh=M, nlist=len(k), off_grid_points=noff, duplicates=ndup, coarse_points_removed=sorted(holes))
+        res, _ = run(ctx, rng, "grid_from_kpoints(select)", grid_from_kpoints, kk, wit, K_FORMS_ARRAY, grid=Ng)
+        if holes:
+            st, val = res
+            if st == "ok":
+                ctx.violation("grid_from_kpoints(select):incomplete_mesh_accepted",
+                              f"{len(holes)} of {nmesh} mesh points missing from a list of {len(k)} points, "
+                              f"returned a selection of {len(val)}", wit)
+            elif not isinstance(val, ValueError):
+                ctx.violation("grid_from_kpoints(select):undocumented_exception_on_incomplete_mesh",
+                              f"{type(val).__name__}: {str(val)[:200]}", wit)
+            else:
+                ctx.count("superset_incomplete_rejected_ValueError")
+        else:
+            oks = check_selection(ctx, "grid_from_kpoints(select)", res, koi, meshset, N, wit)
+            if oks and rng.random() < 0.5:
+                chain(ctx, rng, fns, k, kk, res[1], koi, meshset, N, Ng, wit)
         ctx.count("superset_cases")
 
     if max(N) > 10:
@@ -271,9 +532,13 @@ def case(ctx, rng, idx, state):
     if max(N) >= 97:
         ctx.count("denominator_ge_97")
     ctx.count(f"nontrivial_directions_{ndir}")
+    ctx.count(f"columns_for_grid_from_kpoints_{nd}")
+    ctx.count("representation_" + how)
+    if nmesh == 1:
+        ctx.count("single_point_mesh_cases")
     if ndir >= 1:
-        ctx.nontrivial((N, variant, how))
-    ctx.sample(dict(mesh=N, variant=variant, representation=how, nlist=wit.get("nlist")))
+        ctx.nontrivial((N, variant, how, nd))
+    ctx.sample(dict(mesh=N, variant=variant, representation=how, nlist=wit.get("nlist"), columns=cols))
 
 
 if __name__ == "__main__":
@@ -284,13 +549,26 @@ if __name__ == "__main__":
              "quick / 6000 thorough), shuffled, as exact floats / 8-digit rounded / shifted by lattice vectors and reduced "
              "to [0,1) (un-reduced shifted lists only for get_mp_grid); variants: complete, with duplicates in mixed "
              "representations, with 1-6 mesh points removed (all copies), superset = finer mesh + off-grid points; "
-             "a case is non-trivial when the mesh has >= 1 direction of size > 1; distinct by (mesh, variant, representation)",
+             "second round: the one-point mesh, whole list repeated, (nk, ndim<3) input of grid_from_kpoints, argument forms "
+             "(C/Fortran/non-contiguous arrays, lists for get_mp_grid; grid as tuple/list/array/numpy ints/detection result) "
+             "with the arguments required to come back unchanged, representations round12 / i*(1/N) / unrounded shift, "
+             "whole planes removed, superset with coarse points removed, one array asked for two meshes, functions applied "
+             "to k[selection]; "
+             "a case is non-trivial when the mesh has >= 1 direction of size > 1; distinct by (mesh, variant, "
+             "representation, number of columns given to grid_from_kpoints)",
         assumptions=["expected answers come from the integer mesh coordinates the harness generated (exact Fractions)",
                      "for get_mp_grid on an incomplete mesh an AssertionError is the documented rejection; a returned "
                      "mesh must be the per-direction lcm of the exact denominators of the given points",
                      "inputs stay in the documented domain: Gamma-centred, denominators <= 100, [0,1) for grid_from_kpoints"],
         required_counters=("complete_mesh_cases", "duplicate_cases", "removed_cases", "superset_cases",
                            "incomplete_rejected_ValueError", "denominator_gt_10", "denominator_ge_97",
-                           "nontrivial_directions_1", "nontrivial_directions_2", "nontrivial_directions_3"),
+                           "nontrivial_directions_1", "nontrivial_directions_2", "nontrivial_directions_3",
+                           "single_point_mesh_cases", "list_repeated_cases", "removed_plane_cases",
+                           "removed_leaves_complete_coarser_mesh_detected", "superset_incomplete_rejected_ValueError",
+                           "second_request_cases", "other_mesh_rejected_ValueError", "sorted_order_cases", "chained_cases", "grid_argument_from_detection",
+                           "columns_for_grid_from_kpoints_1", "columns_for_grid_from_kpoints_2",
+                           "kpoints_form_fortran", "kpoints_form_view", "kpoints_form_list", "kpoints_form_tuples",
+                           "grid_form_list", "grid_form_array", "grid_form_array32", "grid_form_npints",
+                           "representation_round12", "representation_recip", "representation_shift_unrounded"),
         min_nontrivial=50,
     )
